@@ -7,6 +7,7 @@ mod c06;
 mod c08;
 mod c09;
 mod groute;
+mod c10;
 mod c11;
 mod c14;
 mod astgen;
@@ -42,6 +43,7 @@ fn main() {
         "c06" => c06::main(&a),
         "c08" => c08::main(&a),
         "c09" => c09::main(&a),
+        "c10" => c10::main(&a),
         "c11" => c11::main(&a),
         "c14" => c14::main(&a),
         "c15" => c15::main(&a),
